@@ -1,8 +1,186 @@
-(** * C13 - Namespace prefixes and internal identifiers are one-to-one, permanent, race-free. *)
-From Coq Require Import List NArith Bool.
-From DH Require Import Model.Namespace Model.Ids Check.C13Check.
+(** * C13 - Namespace prefixes and internal identifiers are one-to-one, permanent, race-free.
+    Only statements, each closed by [exact <lemma>] (or a short wrapper), with [Print Assumptions]. *)
+From Coq Require Import List NArith Bool Arith Lia.
+From DH Require Import Model.Namespace Model.Ids Proofs.NamespaceProofs Proofs.IdsProofs Check.C13Check Proofs.C13CheckProofs.
 Import ListNotations.
 Open Scope N_scope.
 
-Example C13_nonvacuous_dec : dec 1234 = [49; 50; 51; 52].
+(** strconv.Itoa is injective, so "ns<N>" names are pairwise distinct and contain no ':' *)
+Theorem C13_prefix_names : forall a b, (ns_name a = ns_name b -> a = b) /\ ~ In c_colon (ns_name a).
+Proof. intros a b. split; [apply ns_name_inj | apply ns_name_no_colon]. Qed.
+Print Assumptions C13_prefix_names.
+
+(** Round trip, for every reachable manager state (any op sequence incl. restarts, either accessor
+    variant) and EVERY http(s) URI (hash or slash namespace, empty local part, colons anywhere):
+    compaction succeeds, and the CURIE expands to exactly that URI at once and after any continuation. *)
+Theorem C13_roundtrip : forall a ops u,
+  is_http u = true ->
+  let w := fst (ns_run a ops nsw_init) in
+  exists c, snd (ns_step a (NCompact u) w) = OStr c
+    /\ forall ops', expand_curie c (nst (fst (ns_run a ops' (fst (ns_step a (NCompact u) w))))) = Some u.
+Proof.
+  intros a ops u Hh w. apply ns_roundtrip; [|exact Hh].
+  apply (ns_run_inv a ops nsw_init nsw_inv_init).
+Qed.
+Print Assumptions C13_roundtrip.
+
+(** two URIs that were ever given the same CURIE are the same URI *)
+Theorem C13_compact_injective : forall a ops1 ops2 u1 u2 c,
+  let w1 := fst (ns_run a ops1 nsw_init) in
+  let w2 := fst (ns_run a ops2 (fst (ns_step a (NCompact u1) w1))) in
+  is_http u1 = true -> is_http u2 = true ->
+  snd (ns_step a (NCompact u1) w1) = OStr c -> snd (ns_step a (NCompact u2) w2) = OStr c -> u1 = u2.
+Proof. exact ns_compact_injective. Qed.
+Print Assumptions C13_compact_injective.
+
+(** Bijection: after any op sequence (assert / compact / GetNamespacedIdentifier / lookups / context
+    fetches and reads / restart at any position) the prefix map and the expansion map are mutually
+    inverse, the prefixes are exactly ns0..ns(n-1), and the persisted object equals the memory maps. *)
+Theorem C13_bijection : forall a ops,
+  let m := mem (nst (fst (ns_run a ops nsw_init))) in
+  (forall p e, slookup p (p2e m) = Some e <-> slookup e (e2p m) = Some p)
+  /\ map fst (p2e m) = map ns_name (seq 0 (length (p2e m)))
+  /\ dsk (nst (fst (ns_run a ops nsw_init))) = m
+  /\ (forall p1 p2 e, slookup p1 (p2e m) = Some e -> slookup p2 (p2e m) = Some e -> p1 = p2)
+  /\ (forall e1 e2 p, slookup e1 (e2p m) = Some p -> slookup e2 (e2p m) = Some p -> e1 = e2).
+Proof.
+  intros a ops m. destruct (ns_bijection a ops) as [Hi Hd]. fold m in Hi.
+  split; [apply Hi|]. split; [apply Hi|]. split; [exact Hd|].
+  split; [intros p1 p2 e; apply nsinv_p2e_inj; exact Hi | intros e1 e2 p; apply nsinv_e2p_inj; exact Hi].
+Qed.
+Print Assumptions C13_bijection.
+
+(** the maps only grow: a mapping handed out after [ops1] is unchanged after any continuation *)
+Theorem C13_permanent : forall a ops1 ops2 p e,
+  let w1 := fst (ns_run a ops1 nsw_init) in
+  let w2 := fst (ns_run a ops2 w1) in
+  (slookup p (p2e (mem (nst w1))) = Some e -> slookup p (p2e (mem (nst w2))) = Some e)
+  /\ (slookup e (e2p (mem (nst w1))) = Some p -> slookup e (e2p (mem (nst w2))) = Some p).
+Proof. exact ns_permanent. Qed.
+Print Assumptions C13_permanent.
+
+(** Snapshot (repaired accessor): whatever is asserted after a context was handed out, reading that
+    context later shows exactly what it showed when it was fetched. *)
+Theorem C13_snapshot : forall ops, snapshot_ok [] (combine ops (snd (ns_run AliasCopy ops nsw_init))) = true.
+Proof. exact ns_snapshot. Qed.
+Print Assumptions C13_snapshot.
+
+(** F13a: the pinned accessor returns the live map - the earlier response grows (also the root cause
+    of Go's fatal "concurrent map iteration and map write", which the model can only name) *)
+Theorem C13_refuted_alias : exists ops, snapshot_ok [] (combine ops (snd (ns_run AliasLive ops nsw_init))) = false.
+Proof. exists [NFetch; NCompact x_uri; NRead 0]. vm_compute. reflexivity. Qed.
+Print Assumptions C13_refuted_alias.
+
+(** Internal ids, for ALL interleavings of assertIDForURI / commitIDTxn (main and contextual stores) /
+    NewContextualStore / clean restart / crash, every lease size >= 1, both variants:
+    no id is ever returned for two different URIs (none reused after restart or crash), and the two
+    persisted indexes are each other's inverse. *)
+Theorem C13_ids_injective : forall L m ops, 1 <= L ->
+  let st := fst (id_run m L ops (id_init L)) in
+  (forall u u' i, In (u, i) (hist st) -> In (u', i) (hist st) -> u = u')
+  /\ (forall u i, slookup u (disk st) = Some i <-> rlookup i (disk st) = Some u).
+Proof.
+  intros L m ops HL st. split.
+  - exact (ids_injective L HL m ops).
+  - intros u i. apply ids_tables_inverse. exact (ids_reachable_inv L HL m ops).
+Qed.
+Print Assumptions C13_ids_injective.
+
+(** a committed (URI, id) pair stays committed and stays the answer for that URI for ever *)
+Theorem C13_ids_committed_stable : forall L m ops ops' u i, 1 <= L -> u <> [] ->
+  let st := fst (id_run m L ops (id_init L)) in
+  In (u, i) (disk st) ->
+  let st' := fst (id_run m L ops' st) in
+  In (u, i) (disk st')
+  /\ (snd (assert_id L u st') = RId i false \/ (snd (assert_id L u st') = RPanic /\ mref st' = MDead)).
+Proof.
+  intros L m ops ops' u i HL Hne st Hin. apply (ids_committed_stable L HL m st u i ops'); try assumption.
+  exact (ids_reachable_inv L HL m ops).
+Qed.
+Print Assumptions C13_ids_committed_stable.
+
+(** Repaired contextual store: a commit through ANY store makes every id the transaction has handed
+    out durable; from then on that id is the answer for its URI for ever; no request ever panics or
+    hits a discarded transaction. *)
+Theorem C13_ids_stable_fixed : forall L ops k ops' u i, 1 <= L -> u <> [] ->
+  let st := fst (id_run CtxShared L ops (id_init L)) in
+  In (u, i) (view st) ->
+  let st1 := fst (id_step CtxShared L (ICommitCtx k) st) in
+  let st' := fst (id_run CtxShared L ops' st1) in
+  snd (id_step CtxShared L (ICommitCtx k) st) = ROk /\ pend st1 = [] /\ In (u, i) (disk st')
+  /\ snd (assert_id L u st') = RId i false.
+Proof.
+  intros L ops k ops' u i HL Hne st Hin.
+  apply (ids_stable L HL k st u i ops'); try assumption.
+  - exact (ids_reachable_inv L HL CtxShared ops).
+  - apply (shared_run_alive L HL ops); [apply idinv_init | cbn; discriminate].
+Qed.
+Print Assumptions C13_ids_stable_fixed.
+
+Theorem C13_ids_no_failure_fixed : forall L ops, 1 <= L ->
+  Forall (fun o => o <> RPanic /\ o <> RErrDiscarded) (snd (id_run CtxShared L ops (id_init L))).
+Proof. intros L ops HL. apply (ids_shared_no_failure L HL); [apply idinv_init | cbn; discriminate]. Qed.
+Print Assumptions C13_ids_no_failure_fixed.
+
+(** F13b, exact characterisation: a contextual store whose captured transaction had writes and is no
+    longer the parent's open one fails EVERY commit, for every continuation without a restart. *)
+Theorem C13_ctxstore_dead_forever : forall L k g ops st, 1 <= L ->
+  idinv st -> ctx_dead k g st -> (forall c, ~ In (IRestart c) ops) ->
+  commit_ctx CtxCopyPtr k (fst (id_run CtxCopyPtr L ops st)) = (fst (id_run CtxCopyPtr L ops st), RErrDiscarded).
+Proof. intros L k g ops st HL. exact (ctx_dead_forever L HL k g ops st). Qed.
+Print Assumptions C13_ctxstore_dead_forever.
+
+Theorem C13_refuted_ctxstore :
+  let st := fst (id_run CtxCopyPtr 1000 [IAssert u1; INewCtx; ICommitMain; IAssert u2] (id_init 1000)) in
+  ctx_dead 0 1 st /\ snd (id_step CtxCopyPtr 1000 (ICommitCtx 0) st) = RErrDiscarded.
+Proof. exact refuted_ctx_discarded. Qed.
+Print Assumptions C13_refuted_ctxstore.
+
+(** F13c: ids handed out through the pinned contextual store are not made durable by its commit:
+    after a clean restart the same URI gets another id (0 before, 2 after) *)
+Theorem C13_refuted_ctx_lost :
+  snd (id_run CtxCopyPtr 1000 [INewCtx; IAssert u1; ICommitCtx 0; IRestart false; IAssert u2; IAssert u1] (id_init 1000))
+  = [ROk; RId 0 true; ROk; ROk; RId 1 true; RId 2 true].
+Proof. exact refuted_ctx_lost. Qed.
+Print Assumptions C13_refuted_ctx_lost.
+
+(** F13d: the pinned contextual store commits the transaction its parent still points to: the parent
+    panics on the next assertion and cannot commit *)
+Theorem C13_refuted_ctx_poison :
+  snd (id_run CtxCopyPtr 1000 [IAssert u1; INewCtx; ICommitCtx 0; IAssert u2; ICommitMain] (id_init 1000))
+  = [RId 0 true; ROk; ROk; RPanic; RErrDiscarded].
+Proof. exact refuted_ctx_poison. Qed.
+Print Assumptions C13_refuted_ctx_poison.
+
+(** Tie to the correspondence check (partial): on a case where the implementation agrees with the
+    repaired model, every op was answered, no write panicked or hit a discarded transaction and every
+    context read shows what was fetched.
+    Full statement, NOT proved here: [agree v_fixed c = true -> spec_ok c = true].  Gap: [spec_ok]
+    additionally judges every handed-out prefix / CURIE / internal id against the last dump of the
+    tables; at model level that is C13_permanent, C13_roundtrip, C13_ids_committed_stable and
+    C13_ids_stable_fixed, but the lifting of those to the batch-level [wrun] (ids returned by
+    [run_ents] are in the view that the following commit makes durable) is not mechanised.  The
+    check evaluates [spec_ok] on every case and the engine reports a spec failure under the fixed
+    variant as an oracle inconsistency. *)
+Theorem C13_agree_implies_spec_partial : forall c, agree v_fixed c = true -> spec_core c = true.
+Proof. exact agree_fixed_spec_core. Qed.
+Print Assumptions C13_agree_implies_spec_partial.
+
+(** non-vacuity / regression witnesses: the executable spec separates the variants on the witness
+    histories that lib/props/c13.py replays on the real code *)
+Example C13_nonvacuous_verdicts :
+  map (fun w => (verdict v_current w, verdict v_fixed w)) [wit_alias; wit_discarded; wit_poison]
+  = [(false, true); (false, true); (false, true)].
 Proof. vm_compute. reflexivity. Qed.
+
+Example C13_nonvacuous_roundtrip :
+  let '(st, c) := compact x_uri (nst (wns (w_setup v_fixed L_go dss_ab))) in
+  c = Some x_curie /\ expand_curie x_curie st = Some x_uri
+  /\ url_parts x_nopath = Some x_nopath_parts /\ url_parts x_hashslash = Some x_hashslash_parts.
+Proof. vm_compute. repeat split; reflexivity. Qed.
+
+Example C13_nonvacuous_lease :
+  snd (id_run CtxShared 1000 [IAssert u1; IRestart true; IAssert u2; ICommitMain; IRestart false; IAssert u3; IAssert u1]
+              (id_init 1000))
+  = [RId 0 true; ROk; RId 1000 true; ROk; ROk; RId 1001 true; RId 1002 true].
+Proof. exact lease_example. Qed.
